@@ -5,7 +5,6 @@
   preservation by the multiply / divide / power rules including `simplify`.
 -/
 import UnytModel.UfuncProgram
-import UnytProofs.C02
 import UnytProofs.Lemmas.C04Cancel
 
 set_option linter.unusedSectionVars false
@@ -15,11 +14,64 @@ open Unyt UExpr Unyt.Ref.C04
 
 variable {K : Type} [Lean.Grind.Field K] [BEq K] [LawfulBEq K] [RPow K]
 
+/-! The four general facts below are those of `UnytProofs/C02.lean` (`InSync`, `denote_mul`, `denote_pow`,
+    `unit_mul_in_sync`, `unit_pow_in_sync`), restated here so that this file does not import C02's property
+    module, whose kernel-decided obligations over the regenerated unit table change with every table fix. -/
+
+/-- (scale, dimension) of a unit value agree with the denotation of its expression -/
+def InSync (pre : Prefixes K) (t : Lut K) (u : UnitV K) : Prop :=
+  denote pre t u.expr = some (u.scale, u.dim)
+
+theorem denote_mul' (pre : Prefixes K) (t : Lut K) (a b : UExpr K) (va vb : K) (da db : Dim)
+    (ha : denote pre t a = some (va, da)) (hb : denote pre t b = some (vb, db)) :
+    denote pre t (a.mul b) = some (va * vb, da * db) := by
+  simp only [denote] at ha hb ⊢
+  simp only [UExpr.mul, denoteF_append]
+  cases hfa : denoteF pre t a.factors with
+  | none => simp [hfa] at ha
+  | some x =>
+    cases hfb : denoteF pre t b.factors with
+    | none => simp [hfb] at hb
+    | some y =>
+      obtain ⟨xa, xd⟩ := x; obtain ⟨ya, yd⟩ := y
+      simp only [hfa, hfb, Option.some.injEq, Prod.mk.injEq] at ha hb ⊢
+      obtain ⟨rfl, rfl⟩ := ha; obtain ⟨rfl, rfl⟩ := hb
+      exact ⟨by grind, rfl⟩
+
+theorem unit_mul_in_sync' (pre : Prefixes K) (t : Lut K) (u v z : UnitV K)
+    (su : InSync pre t u) (sv : InSync pre t v) (h : u.mul v = .ok z) : InSync pre t z := by
+  simp only [UnitV.mul] at h
+  split at h; · contradiction
+  split at h; · contradiction
+  split at h; · contradiction
+  cases h
+  exact denote_mul' pre t u.expr v.expr _ _ _ _ su sv
+
+theorem denote_pow' (P : K → Prop) (laws : RPowLaws (RPow.rpow (K := K)) P)
+    (pre : Prefixes K) (t : Lut K) (a : UExpr K) (p : Rat) (va : K) (da : Dim)
+    (hpos : AllPos P pre t a.factors) (hc : P a.coeff)
+    (ha : denote pre t a = some (va, da)) :
+    denote pre t (a.pow p) = some (RPow.rpow va p, da.pow p) := by
+  simp only [denote] at ha ⊢
+  obtain ⟨v, d, hv, hpv⟩ := denoteF_pos P laws pre t a.factors hpos
+  simp only [UExpr.pow, denoteF_scaleF P laws pre t a.factors p hpos, hv] at ha ⊢
+  simp only [Option.some.injEq, Prod.mk.injEq] at ha ⊢
+  obtain ⟨rfl, rfl⟩ := ha
+  exact ⟨(laws.mul_rpow p hc hpv).symm, rfl⟩
+
+theorem unit_pow_in_sync' (P : K → Prop) (laws : RPowLaws (RPow.rpow (K := K)) P)
+    (pre : Prefixes K) (t : Lut K) (u z : UnitV K) (p : Rat)
+    (hpos : AllPos P pre t u.expr.factors) (hc : P u.expr.coeff)
+    (su : InSync pre t u) (h : u.pow p = .ok z) : InSync pre t z := by
+  obtain ⟨a, b, _, d⟩ := pow_ok u z p h
+  simp only [InSync, a, b, d]
+  exact denote_pow' P laws pre t u.expr p _ _ hpos hc su
+
 /-- what holds of every unit a program meets -/
 structure Good (P : K → Prop) (pre : Prefixes K) (t : Lut K) (u : UnitV K) : Prop where
   off : u.offset = 0
   pos : P u.scale
-  sync : C02.InSync pre t u
+  sync : InSync pre t u
   allpos : AllPos P pre t u.expr.factors
   cpos : P u.expr.coeff
 
@@ -61,7 +113,7 @@ theorem pos_div {a b : K} (ha : P a) (hb : P b) : P (a / b) := by
 
 theorem good_dimensionless (pre : Prefixes K) (t : Lut K) : Good P pre t (UnitV.dimensionless : UnitV K) := by
   refine ⟨rfl, laws.pos_one, ?_, ?_, laws.pos_one⟩
-  · simp only [C02.InSync, denote, UnitV.dimensionless, UExpr.one, denoteF]
+  · simp only [InSync, denote, UnitV.dimensionless, UExpr.one, denoteF]
     congr 2; grind
   · intro s q hm; simp [UnitV.dimensionless, UExpr.one] at hm
 
@@ -94,7 +146,7 @@ theorem good_multiplyUnits (pre : Prefixes K) (t : Lut K) (u0 u1 ur : UnitV K) (
   split at h; · contradiction
   rename_i s hs
   obtain ⟨rs, rd, ro, re⟩ := mul_zero_offsets u0 u1 r g0.off g1.off hr
-  have rsync : C02.InSync pre t r := C02.unit_mul_in_sync P laws pre t u0 u1 r g0.sync g1.sync hr
+  have rsync : InSync pre t r := unit_mul_in_sync' pre t u0 u1 r g0.sync g1.sync hr
   obtain ⟨ss, sd, so, _, hcm⟩ := simplify_ok pre t r s hs
   have rpos : AllPos P pre t r.expr.factors := by
     rw [re]; exact allPos_append P pre t _ _ g0.allpos g1.allpos
@@ -108,7 +160,7 @@ theorem good_multiplyUnits (pre : Prefixes K) (t : Lut K) (u0 u1 ur : UnitV K) (
   refine ⟨hc, ⟨by simp [so, ro], ?_, ?_, d2, laws.pos_one⟩⟩
   · simp only [ss]; exact pos_div P laws hP0 rP hc
   · have hd : denote pre t s.expr = some (r.scale, r.dim) := by rw [d1]; exact rsync
-    simp only [C02.InSync, denote] at hd ⊢
+    simp only [InSync, denote] at hd ⊢
     cases hf : denoteF pre t s.expr.factors with
     | none => simp [hf] at hd
     | some x =>
@@ -127,8 +179,8 @@ theorem good_divideUnits (pre : Prefixes K) (t : Lut K) (u0 u1 ur : UnitV K) (m 
   split at h; · contradiction
   rename_i s hs
   obtain ⟨rs, rd, ro, re⟩ := div_zero_offsets u0 u1 r g0.off g1.off hr
-  have rsync : C02.InSync pre t r := by
-    simp only [C02.InSync, re, rs, rd]
+  have rsync : InSync pre t r := by
+    simp only [InSync, re, rs, rd]
     exact denote_div P laws hP0 pre t u0.expr u1.expr _ _ _ _ g1.allpos g1.pos g1.cpos g0.sync g1.sync
   obtain ⟨ss, sd, so, _, hcm⟩ := simplify_ok pre t r s hs
   have rpos : AllPos P pre t r.expr.factors := by
@@ -144,7 +196,7 @@ theorem good_divideUnits (pre : Prefixes K) (t : Lut K) (u0 u1 ur : UnitV K) (m 
   refine ⟨hc, ⟨by simp [so, ro], ?_, ?_, d2, laws.pos_one⟩⟩
   · simp only [ss]; exact pos_div P laws hP0 rP hc
   · have hd : denote pre t s.expr = some (r.scale, r.dim) := by rw [d1]; exact rsync
-    simp only [C02.InSync, denote] at hd ⊢
+    simp only [InSync, denote] at hd ⊢
     cases hf : denoteF pre t s.expr.factors with
     | none => simp [hf] at hd
     | some x =>
@@ -158,7 +210,7 @@ theorem good_pow (pre : Prefixes K) (t : Lut K) (u z : UnitV K) (p : Rat)
     (g : Good P pre t u) (h : u.pow p = .ok z) : Good P pre t z := by
   obtain ⟨a, b, c, d⟩ := pow_ok u z p h
   refine ⟨c, by rw [a]; exact laws.pos_rpow _ g.pos,
-    C02.unit_pow_in_sync P laws pre t u z p g.allpos g.cpos g.sync h, ?_, ?_⟩
+    unit_pow_in_sync' P laws pre t u z p g.allpos g.cpos g.sync h, ?_, ?_⟩
   · rw [d]; exact allPos_scaleF P pre t _ _ g.allpos
   · rw [d]; exact laws.pos_rpow _ g.cpos
 
